@@ -176,3 +176,58 @@ def b64(xml):
 def deflate_b64(xml):
     data = xml.encode("utf-8") if isinstance(xml, str) else xml
     return base64.b64encode(zlib.compress(data)[2:-4]).decode("ascii")
+
+
+# ---- encryption through the stand-in -----------------------------------------------
+
+ENC_TEMPLATE = (
+    '<xenc:EncryptedData xmlns:xenc="http://www.w3.org/2001/04/xmlenc#" xmlns:ds="http://www.w3.org/2000/09/xmldsig#" '
+    'Id="ED_verif" Type="http://www.w3.org/2001/04/xmlenc#Element">'
+    '<xenc:EncryptionMethod Algorithm="http://www.w3.org/2001/04/xmlenc#aes128-cbc"/>'
+    '<ds:KeyInfo><xenc:EncryptedKey Id="EK_verif">'
+    '<xenc:EncryptionMethod Algorithm="http://www.w3.org/2001/04/xmlenc#rsa-oaep-mgf1p"/>'
+    "<xenc:CipherData><xenc:CipherValue/></xenc:CipherData></xenc:EncryptedKey></ds:KeyInfo>"
+    "<xenc:CipherData><xenc:CipherValue/></xenc:CipherData></xenc:EncryptedData>"
+)
+ASSERT_XPATH = '/*[local-name()="Response"]/*[local-name()="EncryptedAssertion"]/*[local-name()="Assertion"]'
+
+
+def encrypt_assertion_in_response(xml, certname):
+    """Wrap the (first) Assertion child of the Response in saml:EncryptedAssertion and encrypt it
+    for the certificate `certname` (RSA-OAEP + AES-128-CBC) through the stand-in."""
+    import xml.etree.ElementTree as ET
+
+    m = env.standin()
+    root = m._parse(xml.encode("utf-8") if isinstance(xml, str) else xml)
+    A = "{urn:oasis:names:tc:SAML:2.0:assertion}"
+    idx = [i for i, ch in enumerate(list(root)) if ch.tag == A + "Assertion"][0]
+    a = list(root)[idx]
+    root.remove(a)
+    wrap = ET.Element(A + "EncryptedAssertion")
+    wrap.append(a)
+    wrap.tail = a.tail
+    a.tail = None
+    root.insert(idx, wrap)
+    with tempfile.NamedTemporaryFile(suffix=".xml", delete=False) as f:
+        f.write(ET.tostring(root, encoding="utf-8"))
+        path = f.name
+    try:
+        out, _, _ = m.do_encrypt({"xml_data": path, "node_xpath": ASSERT_XPATH,
+                                  "pubkey_cert": fixtures.cert_path(certname)}, ENC_TEMPLATE.encode())
+    finally:
+        os.unlink(path)
+    return out.decode("utf-8")
+
+
+def soap_envelope(xml):
+    body = xml
+    if body.startswith("<?xml"):
+        body = body[body.index("?>") + 2:]
+    return ('<soapenv:Envelope xmlns:soapenv="http://schemas.xmlsoap.org/soap/envelope/"><soapenv:Body>%s'
+            "</soapenv:Body></soapenv:Envelope>" % body)
+
+
+def tamper_text(xml, needle, replacement):
+    """Change signed content (digest mismatch)."""
+    assert needle in xml
+    return xml.replace(needle, replacement, 1)
